@@ -9,6 +9,9 @@ import (
 	"encoding/json"
 	"flag"
 	"fmt"
+	"go/ast"
+	"go/parser"
+	"go/token"
 	"os"
 	"os/exec"
 	"path/filepath"
@@ -464,8 +467,24 @@ func runCheck(id, tier, only string, workers int, verbose bool) int {
 	for _, l := range violLines {
 		fmt.Println(l)
 	}
+	// at most 3 lines per class (text before " @ " / " :: "), the rest is counted
+	incClass := map[string]int{}
 	for _, l := range inconclusive {
-		fmt.Fprintln(os.Stderr, "INCONCLUSIVE:", l)
+		cl := l
+		for _, sep := range []string{" @ ", " :: "} {
+			if k := strings.Index(cl, sep); k >= 0 {
+				cl = cl[:k]
+			}
+		}
+		incClass[cl]++
+		if incClass[cl] <= 3 {
+			fmt.Fprintln(os.Stderr, "INCONCLUSIVE:", l)
+		}
+	}
+	for cl, n := range incClass {
+		if n > 3 {
+			fmt.Fprintf(os.Stderr, "INCONCLUSIVE: ... %d more of class %q\n", n-3, cl)
+		}
 	}
 
 	type fe struct {
@@ -648,6 +667,11 @@ func newNativeRunner(pkg string, files map[string]string, scratch string) *nativ
 		repl[virt] = real
 	}
 	repl[filepath.Join(dir, "zz_verif_replay_test.go")] = testFile
+	for virt, real := range instrumentLocks(scratch) {
+		if _, isHarness := repl[virt]; !isHarness {
+			repl[virt] = real
+		}
+	}
 	ovb, _ := json.Marshal(map[string]interface{}{"Replace": repl})
 	ovFile := filepath.Join(scratch, strings.ReplaceAll(pkg, "/", "_")+"_overlay.json")
 	os.WriteFile(ovFile, ovb, 0o644)
@@ -759,4 +783,102 @@ func doReplay(path string) int {
 	}
 	fmt.Println("not reproduced (native run passed)")
 	return 0
+}
+
+// instrumentLocks prepares, for the native replay build only, copies of the
+// /repo source files in which every statement `x.Lock()` / `x.RLock()` is
+// preceded — on the same line, so line numbers are unchanged — by
+// verifhook.Point("lock:<file>:<line>"). The engine names its lock scheduling
+// points the same way (h.SymbolicLocks), so a recorded preemption before a
+// lock acquisition can be replayed by pausing the real goroutine there. The
+// copies are regenerated from the working tree on every run.
+var instrOnce struct {
+	done bool
+	m    map[string]string
+}
+
+func instrumentLocks(scratch string) map[string]string {
+	if instrOnce.done {
+		return instrOnce.m
+	}
+	instrOnce.done = true
+	instrOnce.m = map[string]string{}
+	root := filepath.Join(repoDir, "internal")
+	outDir := filepath.Join(scratch, "lockinstr")
+	_ = filepath.Walk(root, func(path string, info os.FileInfo, err error) error {
+		if err != nil || info.IsDir() || !strings.HasSuffix(path, ".go") || strings.HasSuffix(path, "_test.go") {
+			return nil
+		}
+		if strings.Contains(path, "/verifhook/") || strings.Contains(path, "/verifh/") || strings.Contains(filepath.Base(path), "zz_verif") {
+			return nil
+		}
+		src, err := os.ReadFile(path)
+		if err != nil || !(bytes.Contains(src, []byte(".Lock()")) || bytes.Contains(src, []byte(".RLock()"))) {
+			return nil
+		}
+		fset := token.NewFileSet()
+		f, err := parser.ParseFile(fset, path, src, parser.ParseComments)
+		if err != nil {
+			return nil
+		}
+		type ins struct {
+			off  int
+			text string
+		}
+		var edits []ins
+		ast.Inspect(f, func(n ast.Node) bool {
+			var list []ast.Stmt
+			switch b := n.(type) {
+			case *ast.BlockStmt:
+				list = b.List
+			case *ast.CaseClause:
+				list = b.Body
+			case *ast.CommClause:
+				list = b.Body
+			}
+			for _, st := range list {
+				es, ok := st.(*ast.ExprStmt)
+				if !ok {
+					continue
+				}
+				call, ok := es.X.(*ast.CallExpr)
+				if !ok || len(call.Args) != 0 {
+					continue
+				}
+				sel, ok := call.Fun.(*ast.SelectorExpr)
+				if !ok || (sel.Sel.Name != "Lock" && sel.Sel.Name != "RLock") {
+					continue
+				}
+				line := fset.Position(call.Lparen).Line
+				edits = append(edits, ins{fset.Position(es.Pos()).Offset, fmt.Sprintf("verifhook.Point(%q); ", fmt.Sprintf("lock:%s:%d", filepath.Base(path), line))})
+			}
+			return true
+		})
+		if len(edits) == 0 {
+			return nil
+		}
+		hasImport := false
+		for _, im := range f.Imports {
+			if strings.Trim(im.Path.Value, "\"") == module+"/internal/verifhook" {
+				hasImport = true
+			}
+		}
+		if !hasImport {
+			// same line as the package clause: line numbers stay as they are
+			edits = append(edits, ins{fset.Position(f.Name.End()).Offset, "; import verifhook \"" + module + "/internal/verifhook\""})
+		}
+		sort.Slice(edits, func(i, j int) bool { return edits[i].off > edits[j].off })
+		out := append([]byte(nil), src...)
+		for _, e := range edits {
+			out = append(out[:e.off], append([]byte(e.text), out[e.off:]...)...)
+		}
+		rel, _ := filepath.Rel(repoDir, path)
+		dst := filepath.Join(outDir, rel)
+		_ = os.MkdirAll(filepath.Dir(dst), 0o755)
+		if os.WriteFile(dst, out, 0o644) == nil {
+			instrOnce.m[path] = dst
+		}
+		return nil
+	})
+	return instrOnce.m
 }
